@@ -30,9 +30,13 @@ def scenarios(ctx):
     for i in range(n):
         mode = rng.random()
         if mode < 0.65:
+            # a third of the worlds mix indels in; under --only-snvs those are records the run skips
+            kinds = ("snv",) if rng.random() < 0.65 else ("snv", "snv", "ins", "del")
             w = PW.rand_world(rng, nsamples=rng.choice([1, 1, 2]), nchroms=1, max_sites=rng.choice([6, 9, 12]),
-                              depth=rng.choice([(1, 1), (1, 2), (4, 9)]), gap_prob=rng.choice([0.3, 0.7]), kinds=("snv",))
+                              depth=rng.choice([(1, 1), (1, 2), (4, 9)]), gap_prob=rng.choice([0.3, 0.7]), kinds=kinds)
             o = {"tag": rng.choice(["PS", "HP"]), "max_coverage": rng.choice([15, 2, 3, 4])}
+            if len(kinds) > 1 and rng.random() < 0.6:
+                o["only_snvs"] = True
         else:
             quartet = rng.random() < 0.4
             ped = [["s1", "s2", "s3"]] + ([["s1", "s2", "s4"]] if quartet else [])
@@ -54,6 +58,12 @@ def scenarios(ctx):
                             vg[s][ci][si] = rng.choice(["0/1", "0/1", "0/0", "1/1"])
             w["vcf_gt"] = vg
         w["opts"] = o
+        if rng.random() < 0.25:
+            PW.add_decoys(rng, w)
+        if rng.random() < 0.3:
+            w["stale_phase"] = rng.choice(["PS", "HP"])    # the input VCF already carries unrelated phase statements
+        if rng.random() < 0.3:
+            w["gt_desc"] = True                            # unphased heterozygous genotypes written 1/0
         scs.append({"world": w})
     return scs
 
